@@ -5,6 +5,8 @@ BEGIN captures (by clone) and ROLLBACK restores; rollback assigns every captured
 success path; COMMIT restores nothing.  Does NOT decide that Clone of Table/Catalog is deep."""
 from ..engine.callgraph import CallGraph
 from ..engine.facts import callee_name
+from ..engine.paths import success_starts
+from ..engine.cfg import cfg
 from ..engine.cfg import op_place, defs_of, op_local
 from . import matrix as M
 
@@ -179,4 +181,40 @@ def run(ctx):
         ctx.instance(f'executor/{ex}')
         if M.D + target not in names:
             ctx.finding(f'executor/{ex}', f'{ex}::execute no longer calls Database::{target}', f.loc)
+
+    # ---------------------------------------------------------------- ownership of the transaction a statement ends
+    ctx.rule('C13.own', 'outside the COMMIT / ROLLBACK executors, a function of the executor may call Database::rollback_transaction or '
+             'commit_transaction only where its own successful Database::begin_transaction dominates the call (a statement ends only '
+             'the transaction it opened itself, never the caller\'s)')
+    TXEX = 'vibesql_executor::transaction::'
+    nown = 0
+    for f in prog.fns.values():
+        if f.unit != 'vibesql_executor' or f.nice.startswith(TXEX) or '/tests' in f.file or '::tests::' in f.nice:
+            continue
+        ends = [(i, t) for i, t in f.calls() if callee_name(t) in (M.D + 'rollback_transaction', M.D + 'commit_transaction')]
+        if not ends:
+            continue
+        g = cfg(f)
+        begins = [i for i, t in f.calls() if callee_name(t) == M.D + 'begin_transaction']
+        starts = set()
+        for b in begins:
+            starts |= set(success_starts(f, b))
+        for i, t in ends:
+            nown += 1
+            what = callee_name(t).rsplit('::', 1)[1]
+            owned = any(g.dominates(s0, i) for s0 in starts)
+            if not owned and begins:
+                # flag-correlated form: `if !in_tx { begin }` ... `if !in_tx { commit }` — the call runs only under the
+                # conditions under which this function's begin ran
+                from . import shared
+                cb = set()
+                for b in begins:
+                    cb |= {c for c in shared.deciding_conditions(f, b) if not c[0].startswith('discr(branch(')}
+                ce = shared.deciding_conditions(f, i)
+                owned = bool(cb) and cb <= ce
+            ctx.instance(f'own/{f.nice}/{what}', {'rule': 'C13.own', 'fn': f.nice, 'loc': f'{f.file}:{t["l"]}', 'dominated_by_own_begin': owned})
+            if not owned:
+                ctx.finding(f'own/{f.nice}/{what}', f'{f.nice} calls {what} on a path where it has not itself opened the transaction: a '
+                            'failing statement inside BEGIN ... would end (roll back or commit) the user\'s transaction', f'{f.file}:{t["l"]}')
+    ctx.floor('C13.own transaction-ending calls outside the transaction executors', nown, 2)
     ctx.assumptions.append('derived Clone of Catalog/Table/HashMap is a deep copy')
